@@ -433,13 +433,13 @@ func (g *genState) oracleMsgs() []Event {
 		}
 		if r.Chance(4) {
 			f := g.user()
-			out = append(out, Event{Kind: "otx", Msgs: []Msg{{Kind: "consent", Val: v, Feeder: f}}})
+			out = append(out, Event{Kind: "otx", Msgs: []Msg{{Kind: "consent", Val: v, Feeder: f, ValUpper: r.Chance(15)}}})
 			g.feeders[v] = f
 			continue
 		}
 		if f, ok := g.feeders[v]; ok && r.Chance(6) {
 			// take the delegation back: the operator names its own account; the former feeder keeps trying
-			out = append(out, Event{Kind: "otx", Msgs: []Msg{{Kind: "consent", Val: v, Feeder: v}}})
+			out = append(out, Event{Kind: "otx", Msgs: []Msg{{Kind: "consent", Val: v, Feeder: v, ValUpper: r.Chance(15)}}})
 			delete(g.feeders, v)
 			g.former[v] = f
 			continue
@@ -503,7 +503,7 @@ func (g *genState) oracleMsgs() []Event {
 			if r.Chance(4) {
 				rid = id + uint64(2*g.h.Genesis.VotePeriod)
 			}
-			out = append(out, Event{Kind: "otx", Msgs: []Msg{{Kind: "prevote", Feeder: feeder, Val: v, Commit: commit, Round: rid}}})
+			out = append(out, Event{Kind: "otx", Msgs: []Msg{{Kind: "prevote", Feeder: feeder, Val: v, Commit: commit, Round: rid, ValUpper: r.Chance(5)}}})
 			g.commits[v] = vote
 		} else if g.height <= ve {
 			vote, ok := g.commits[v]
@@ -515,6 +515,7 @@ func (g *genState) oracleMsgs() []Event {
 			}
 			m := *vote
 			m.Feeder = feeder
+			m.ValUpper = r.Chance(5)
 			if r.Chance(5) {
 				m.Salt = m.Salt + "x" // does not open the commitment
 			}
